@@ -366,6 +366,17 @@ pub fn gen_cases(o: &Opts, part: &str) -> Vec<Case> {
                         v.push(c);
                     }
                 }
+                // -c together with -f, equal and different polarities
+                for (retain, filt) in [("t", "t"), ("t", "f"), ("f", "t"), ("f", "f")] {
+                    let mut c = base(f);
+                    c.retain = retain;
+                    c.filter = filt;
+                    v.push(c.clone());
+                    if i % 4 == 0 {
+                        c.model = true;
+                        v.push(c);
+                    }
+                }
                 let mut c = base(f);
                 c.model = true;
                 v.push(c.clone());
